@@ -280,7 +280,7 @@ class TseytinAny(CircuitContract):
             ctx.assume(n >= 0)
             ctx.assume(z3.ForAll([k], z3.Implies(z3.And(k >= 0, k < n), z3.And(idx(k) >= 0, idx(k) < S0.out_n))))      # precondition: valid output indices
             args.append(SymSeq([], n, lambda q: Sym(idx(q)), 'list'))
-        return args, {}, {'h': h, 'S0': S0}
+        return args, {}, {'h': h, 'S0': S0, 'val': self.val, 'loop2': self.loop2}          # per-path objects for post()
 
     # ---- process_gate: contract use / body verification -------------------------------------------------------
     def handler(self, it, fv, args, kwargs):
@@ -335,18 +335,18 @@ class TseytinAny(CircuitContract):
     def post(self, it, ctx, result, st):
         if self.mode != 'loops':
             return          # the loop-exit path of a body-verification run carries no obligation (mode 'loops' owns it)
-        S0, val = self.S0, self.val
+        S0, val, loop2 = st['S0'], st['val'], st['loop2']
         cnf = it.call(it.getattr(result, 'get_raw'), [], {})
         if not isinstance(cnf, CnfView):
             yield ('returns-the-built-cnf', z3.BoolVal(False))
             return
-        env = self.loop2.env
+        env = loop2.env
         sd, sv, N, _ = view(it, env, val)
         sat = cnf.sat
-        m = self.loop2.seq.n
+        m = loop2.seq.n
         l, x = ctx.fresh(LabelSort, 'lf'), z3.Const('x!f', LabelSort)
         i, j, y = ctx.fresh(I, 'if'), ctx.fresh(I, 'jf'), z3.Int('y!f')
-        sel = lambda q: self.loop2.sel(it, q)
+        sel = lambda q: loop2.sel(it, q)
         yield ('final/input-i-is-variable-i+1', z3.Implies(z3.And(i >= 0, i < S0.in_n), z3.And(sd(S0.in_elem(i)), sv(S0.in_elem(i)) == i + 1)))
         yield ('final/selected-outputs-encoded', z3.Implies(z3.And(j >= 0, j < m), sd(sel(j))))
         yield ('final/literals-injective-and-positive', z3.Implies(sd(l), z3.And(sv(l) >= 1, S0.dom(l))))
@@ -356,7 +356,7 @@ class TseytinAny(CircuitContract):
         yield ('final/equations-and-true-outputs-imply-sat',
                z3.Implies(z3.And(z3.ForAll([x], z3.Implies(z3.And(sd(x), nonin(S0, x)), G(S0, val, sv, x))),
                                  z3.ForAll([y], z3.Implies(z3.And(y >= 0, y < m), val.f(sv(sel(y)))))), sat))
-        yield ('final/circuit-untouched', z3.BoolVal(not [e for e in self.h.events if e[0] in ('gate-write', 'gate-del', 'users-alias', 'users-del')]))
+        yield ('final/circuit-untouched', z3.BoolVal(not [e for e in st['h'].events if e[0] in ('gate-write', 'gate-del', 'users-alias', 'users-del')]))
 
     def on_raise(self, it, ctx, exc, st):
         yield ('no-raise', z3.BoolVal(False), {'raised': self.exc_name(exc), 'witness': 'raises-' + self.exc_name(exc)})
